@@ -10,7 +10,7 @@ import shutil
 import sys
 import tempfile
 
-SEGS = ["name", "sub", "..", ".", "", "..name", "name..", "sub\\..", "\\.."]
+SEGS = ["name", "sub", "..", ".", "", "..name", "name..", "sub\\..", "\\..", "sub\\..\\.."]
 DIRS = ["/srv/t", "/srv/t/", "rel/t", ".", "..", "/", "/srv/./t", "/srv/x/../t", "t//u"]
 
 
